@@ -99,8 +99,10 @@ Inductive case :=
    indexes in it that the statement does not itself drop), leaving file; inplace: the catalog
    file kept its inode (rewritten in place) -- then obs n = first n bytes of file in place
    (n = -1: oldfile); otherwise only n = -1 (old) and n = len (new) are crash states.
+   evs: the io_event hook calls (kind, a, b) the statement made for the path turdb.catalog
+   (4 create/truncate, 8 write at offset a of b bytes, 2 sync_all);
    ORun lo hi p o: every n in lo..hi gave load outcome p and open outcome o *)
-| Crash (inplace : bool) (old : list tsum) (oldfile file : list Z) (obs : list orun).
+| Crash (inplace : bool) (evs : list (Z * Z * Z)) (old : list tsum) (oldfile file : list Z) (obs : list orun).
 
 (* ------------------------------------------------------------------ model side *)
 Definition fnv_step (h b : Z) : Z := Z.land (Z.lxor h b * 1099511628211) 18446744073709551615.
@@ -134,6 +136,19 @@ Definition tsum_in (ts : list tsum) (t : tsum) : bool :=
 Definition tsums_sub (a b : list tsum) : bool := forallb (tsum_in b) a.
 Definition tsums_eq (a b : list tsum) : bool := tsums_sub a b && tsums_sub b a && (zlen a =? zlen b).
 
+(* the model's event list as the hook would report it *)
+Fixpoint ev_codes (off : Z) (p : list ev) : list (Z * Z * Z) :=
+  match p with
+  | [] => []
+  | EvCreate _ :: r => (4, 0, 0) :: ev_codes 0 r
+  | EvWrite _ d :: r => (8, off, zlen d) :: ev_codes (off + zlen d) r
+  | EvSync _ :: r => (2, 0, 0) :: ev_codes off r
+  | EvRename _ _ :: r => ev_codes off r
+  | EvSyncDir :: r => ev_codes off r
+  end.
+Definition zzz_eqb (a b : Z * Z * Z) : bool :=
+  match a, b with (x, y, z), (x', y', z') => (x =? x') && (y =? y') && (z =? z') end.
+
 Definition crash_point (inplace : bool) (n : Z) : nat * nat :=
   if n <? 0 then (0%nat, 0%nat) else if inplace then prefix_point n else (6%nat, 0%nat).
 Definition crash_prog (inplace : bool) (file : list Z) : list ev :=
@@ -161,7 +176,9 @@ Definition model_agrees (c : case) : bool :=
   | Dec bs l => load_eq (deserialize bs base_catalog) l
   | LoadF f l => load_eq (load_file f) l
   | Ddl _ _ file l o => load_eq (load_file file) l && open_agrees (load_file file) o
-  | Crash inplace old oldfile file obs =>
+  | Crash inplace evs old oldfile file obs =>
+      (* in place: the statement issued exactly the model's events on the live catalog file *)
+      (if inplace then list_eqb zzz_eqb evs (ev_codes 0 (crash_prog true file)) else true) &&
       forallb (fun ob => match ob with (n, p, o) =>
                  let r := crash_load inplace oldfile file n in pout_eq r p && open_agrees r o end) (expand_obs obs)
   end.
@@ -200,7 +217,7 @@ Definition spec_ok (c : case) : bool :=
                          && forallb (fun s => match find_schema c' s with Some _ => true | None => false end) schemas
       | _, _ => false
       end
-  | Crash inplace old oldfile file obs => forallb (obs_ok old) (expand_obs obs)
+  | Crash inplace evs old oldfile file obs => forallb (obs_ok old) (expand_obs obs)
   end.
 
 (* ------------------------------------------------------------------ known findings *)
@@ -215,7 +232,7 @@ Definition known_class (c : case) : Z :=
   | Dec _ _ | LoadF _ _ => 0
   | Ddl schemas expect _ _ _ =>
       match schemas with _ :: _ => 1 | [] => if forallb etab_plain expect then 0 else 2 end
-  | Crash inplace old oldfile file obs =>
+  | Crash inplace evs old oldfile file obs =>
       (* only if every observation that fails the oracle is a crash point inside the rewrite *)
       let h := firstn 128 file in
       let b := skipn 128 file in
